@@ -7,7 +7,7 @@
 // the "if (t0.count(x))" guard that remove_simplex (l.156) has. It also happens for a vertex that WAS in the complex and
 // has been removed (second call of remove_vertex on the same vertex), and on the empty complex.
 //
-// Build: g++ -std=gnu++17 -O1 -g -fsanitize=address,undefined -I/tmp/seed/P16/src/Toplex_map/include defect_4.cpp -o defect_4
+// Build: g++ -std=gnu++17 -O1 -g -fsanitize=address,undefined -I/repo/src/Toplex_map/include defect_4.cpp -o defect_4
 #include <gudhi/Toplex_map.h>
 #include <cstdio>
 #include <vector>
